@@ -216,29 +216,57 @@ theorem WF.handleEvent {s : Srv} (h : WF s) (cfg : Cfg) (t : Eio) (nsp : Option 
 
 /-! ### acknowledgements -/
 
+/-- `callbacks[sid].pop(id)` -/
+def popCb (s : Srv) (sid : Sid) (i : Nat) : Srv :=
+  { s with cbs := s.cbs.filter (fun c => !(c.1 = sid ∧ c.2.1 = i)) }
+
 theorem handleAck_state (s : Srv) (t : Eio) (nsp : Option Str) (id : Option Nat) (data : Option J) :
     (handleAck s t nsp id data).1 = s ∨
-    ∃ sid i, sidOf s.rooms (nsp.getD ['/']) t = some sid ∧ id = some i ∧
-      core (handleAck s t nsp id data).1 =
-        core { s with cbs := s.cbs.filter (fun c => !(c.1 = sid ∧ c.2.1 = i)) } := by
+    ∃ sid i tok, sidOf s.rooms (nsp.getD ['/']) t = some sid ∧ id = some i ∧
+      (sid, i, tok) ∈ s.cbs ∧
+      ((handleAck s t nsp id data).1 = popCb s sid i ∨
+       ∃ n args, tok = .call n ∧ starArgs data = .ok args ∧
+        (handleAck s t nsp id data).1 =
+          { popCb s sid i with callDone := s.callDone ++ [(n, args)] }) := by
   unfold handleAck
   dsimp only
   split
   · rename_i sid i hs
     split
     · exact Or.inl rfl
-    · right
-      refine ⟨sid, i, hs, rfl, ?_⟩
+    · rename_i a b tok hf
+      right
+      have hm := List.mem_of_find?_eq_some hf
+      have hp := List.find?_some hf
+      simp only [decide_eq_true_eq] at hp
+      obtain ⟨rfl, rfl⟩ := hp
+      refine ⟨_, _, tok, hs, rfl, hm, ?_⟩
       split
-      · rfl
-      · split <;> rfl
+      · exact Or.inl rfl
+      · rename_i args ha
+        split
+        · exact Or.inl rfl
+        · rename_i n; exact Or.inr ⟨n, args, rfl, ha, rfl⟩
   · exact Or.inl rfl
+
+theorem WF.popCb {s : Srv} (h : WF s) (sid : Sid) (i : Nat) : WF (popCb s sid i) :=
+  ⟨h.toWF0.set_cbs_filter _, h.pendingNil⟩
+
+theorem WF0.set_callDone {s : Srv} (h : WF0 s) (c : List (Nat × List J)) :
+    WF0 { s with callDone := c } :=
+  ⟨h.rooms, h.sidAlloc, h.sidNs, h.cbsLive, h.ctrLive, h.cbsLe, h.cbsNodup, h.binNodup,
+    h.envSocks, h.sessOpen⟩
+
+theorem WF0.set_nCall {s : Srv} (h : WF0 s) (n : Nat) : WF0 { s with nCall := n } :=
+  ⟨h.rooms, h.sidAlloc, h.sidNs, h.cbsLive, h.ctrLive, h.cbsLe, h.cbsNodup, h.binNodup,
+    h.envSocks, h.sessOpen⟩
 
 theorem WF.handleAck {s : Srv} (h : WF s) (t : Eio) (nsp : Option Str) (id : Option Nat)
     (data : Option J) : WF (handleAck s t nsp id data).1 := by
-  rcases handleAck_state s t nsp id data with h1 | ⟨sid, i, _, _, h1⟩
+  rcases handleAck_state s t nsp id data with h1 | ⟨sid, i, tok, _, _, _, h1 | ⟨n, args, _, _, h1⟩⟩
   · rw [h1]; exact h
-  · exact WF.of_core ⟨h.toWF0.set_cbs_filter _, h.pendingNil⟩ h1
+  · rw [h1]; exact h.popCb sid i
+  · rw [h1]; exact ⟨(h.popCb sid i).toWF0.set_callDone _, h.pendingNil⟩
 
 /-! ### frames -/
 
@@ -446,7 +474,7 @@ theorem step_run_induct (dec : Str → Except Err (Packet × Nat)) (cfg : Cfg)
 
 theorem WF.callStart {s : Srv} (h : WF s) (ev : Str) (d : Data) (ns : Ns) (sid : Sid) :
     WF (callStart s ev d ns sid).1 := by
-  have h1 : WF { s with nCall := s.nCall + 1 } := h.of_core rfl
+  have h1 : WF { s with nCall := s.nCall + 1 } := ⟨h.toWF0.set_nCall _, h.pendingNil⟩
   exact h1.emit ..
 
 theorem WF.step_run (dec : Str → Except Err (Packet × Nat)) (cfg : Cfg) :
